@@ -158,7 +158,7 @@ func (p *prog) expect(ok bool, what, expected, observed string) {
 }
 
 var c05Ints = []int{0, 1, 2, 3, -1, 7, 1 << 30, math.MaxInt, math.MinInt, -2}
-var c05Floats = []float64{0.5, 1, 2.5, -3, 1e21, 0, math.Inf(1), math.Inf(-1), math.MaxFloat64, 5e-324,
+var c05Floats = []float64{0.5, 1, 2.5, -3, 1e21, 0, math.Copysign(0, -1), math.Inf(1), math.Inf(-1), math.MaxFloat64, 5e-324,
 	float64(float32(0.1)), float64(float32(3.14)), float64(float32(1.0) / 3)} // the last three are exact float32 values without a short decimal form
 var c05Strs = []string{"a", "b", "", "zz", "a b", "é"}
 
@@ -300,7 +300,7 @@ func modelSort(n *model.Node) {
 
 func runC05(c *fw.Ctx) {
 	steps := c.N(40, 60)
-	c.Cases("pinned", 4, true, func(i int, r *rng.R) {
+	c.Cases("pinned", 5, true, func(i int, r *rng.R) {
 		p := &prog{c: c, r: r, h: &model.Heap{}}
 		c05Pinned(p, i)
 		c.Distinct(p.input())
@@ -411,6 +411,20 @@ func c05Pinned(p *prog, which int) {
 		c05Concat(p, a, b)
 		c05Insert(p, a, 2, model.Str("x"))
 		c05Concat(p, a, b2)
+	case 4:
+		// a value leaves and an equal-looking one comes: what is stored is the value given, sign of zero and kind included
+		c05Add(p, a, []model.Val{model.Float(0)})
+		c05Pop(p, a)
+		c05Add(p, a, []model.Val{model.Float(math.Copysign(0, -1))})
+		c05Pop(p, a)
+		c05Add(p, a, []model.Val{model.Float(0)})
+		c05Pop(p, a)
+		c05Add(p, a, []model.Val{model.Int(0)})
+		c05Pop(p, a)
+		c05Add(p, a, []model.Val{model.Float(math.Copysign(0, -1)), model.Float(0)})
+		c05Replace(p, a, 0, model.Float(math.Copysign(0, -1)))
+		c05Replace(p, a, 0, model.Float(0))
+		c05Insert(p, a, 1, model.Float(math.Copysign(0, -1)))
 	default:
 		c05SubList(p, a, 1, -len(a.E))
 		c05SubList(p, a, 0, -len(a.E))
